@@ -35,6 +35,16 @@ A06 == ev'.e = "BgFail" /\ IsOwner(ev'.r) /\ WaitingStandby
 \* the owner is pre-empted: it is served by a connection that arrived through its waiter while its own attempt is unfinished
 A07 == ev'.e = "Handoff" /\ IsOwner(ev'.r) /\ chan[ev'.r].st = "sent" /\ ~cfg.cap /\ WaitingStandby
 A08 == ev'.e = "Handoff" /\ IsOwner(ev'.r) /\ chan[ev'.r].st = "sent" /\ cfg.cap /\ WaitingStandby
+\* ... while TWO checkouts stand by, the one in front an HTTP/1 request (it takes the attempt over as an independent checkout and
+\* announces nothing: whoever stands behind it must have been released by the pool itself), and: a released standby is cancelled
+\* before it is polled again while another released standby exists
+StandbyWaiting(k) == ActiveCo(k) /\ co[k].standby /\ chan[k].st = "open"
+A09 == ev'.e \in {"PollErr", "Cancel"} /\ IsOwner(ev'.r)
+          /\ \E k1, k2 \in Req : k1 < k2 /\ StandbyWaiting(k1) /\ StandbyWaiting(k2) /\ ~req[k1].h2 /\ req[k2].h2
+A10 == ev'.e = "Cancel" /\ ActiveCo(ev'.r) /\ co[ev'.r].standby /\ chan[ev'.r].st = "txdropped"
+          /\ \E k \in Req \ {ev'.r} : ActiveCo(k) /\ co[k].standby /\ chan[k].st = "txdropped"
+NotA09 == [][~A09]_vars
+NotA10 == [][~A10]_vars
 NotA04 == [][~A04]_vars
 NotA05 == [][~A05]_vars
 NotA06 == [][~A06]_vars
